@@ -37,6 +37,7 @@ fn base_env(worker: usize) -> Env {
     let v = verif_dir();
     let bin = std::env::var("VSIM_BIN").map(PathBuf::from).unwrap_or_else(|_| v.join(".target/cli/debug/typstyle"));
     let shim = std::env::var("VSIM_SHIM").map(PathBuf::from).unwrap_or_else(|_| v.join(".target/shim.so"));
+    // (./check exports VSIM_BIN and VSIM_SHIM; the defaults are for running the binary by hand)
     let scratch = if Path::new("/dev/shm").is_dir() { PathBuf::from("/dev/shm") } else { std::env::temp_dir() };
     let base = scratch.join(format!("typstyle-verif-{:07}", std::process::id())).join(format!("k{:05}", worker));
     Env { bin, shim, base }
